@@ -127,12 +127,57 @@ def cs : P String := do
   let vd := vd.failIf (out.map (fun e => e.obs) != want || !(out.all (fun e => e.action == a))) "IncrementalPruning crossSum_links_wrong"
   return vd.render
 
+def sameEntry (x y : VEntry) : Bool :=
+  x.action == y.action && x.obs == y.obs && x.values.length == y.values.length &&
+  (x.values.zip y.values).all (fun p => closeQ tol p.1 p.2)
+
+def sameVList (x y : VList) : Bool := x.length == y.length && (x.zip y).all (fun p => sameEntry p.1 p.2)
+
+/-- `pj pomdp w a | O rows` : Projecter::operator()(w, a) -/
+def pj : P String := do
+  let m ← pomdpP; let w ← vlistP; let a ← P.nat; P.bar
+  let O ← P.nat; let rows ← P.rep vlistP O; P.eof
+  let mrows := (List.range m.O).map (fun o => project m w a o)
+  let vd : Verdict := { tag := "pj" }
+  let vd := vd.diffIf (O != m.O || !((mrows.zip rows).all (fun p => sameVList p.1 p.2))) "Projecter model_differs"
+  -- property clause: each projected vector is tagged with its parent id (or the single filler entry links to 0)
+  let tagsOK := ((List.range m.O).zip rows).all (fun (o, r) =>
+    if possible m a o then r.map (·.obs) == (List.range w.length).map (fun i => [i]) else r.map (·.obs) == [[0]])
+  let vd := vd.failIf (!tagsOK || !(rows.all (fun r => r.all (fun e => e.action == a)))) "Projecter parent_id_wrong"
+  return vd.render
+
+/-- `cb S b a O rows | entry value` : crossSumBestAtBelief(b, row, a, &value) -/
+def cb : P String := do
+  let S ← P.nat; let b ← P.qs; let a ← P.nat; let O ← P.nat; let rows ← P.rep vlistP O; P.bar
+  let e ← ventryP; let value ← P.q; P.eof
+  let bf := bfun b
+  let me := crossSumBestAtBeliefRow S bf rows a
+  let vd : Verdict := { tag := "cb" }
+  -- property clause on the implementation's own entry: for every observation the link names a member of that
+  -- observation's list, and the values are the sum of exactly those members' values (links and values travel together)
+  let picks := (rows.zip e.obs).map (fun (r, l) => r.find? (fun p => link p 0 == l))
+  let okPick := e.obs.length == O && picks.all (·.isSome)
+  let sumV := picks.foldl (fun acc p => match p with | some q => addV acc q.values | none => acc) (List.replicate S 0)
+  let okSum := e.values.length == S && (sumV.zip e.values).all (fun p => closeQ tol p.1 p.2)
+  let vd := vd.failIf (!okPick) "crossSumBestAtBelief link_not_from_its_list"
+  let vd := vd.failIf (okPick && !okSum) "crossSumBestAtBelief links_values_mismatch"
+  let vd := vd.failIf (e.action != a) "crossSumBestAtBelief action_wrong"
+  -- model agreement (a differing pick is a rounding tie iff the two totals agree)
+  let mval := dot S bf (val me)
+  let vd := if sameEntry me e then vd
+    else if closeQ tol mval value && closeQ tol (dot S bf (val e)) value then { vd with tag := "cb tie" }
+    else vd.diffIf true "crossSumBestAtBelief model_differs"
+  let vd := vd.diffIf (!(closeQ tol (dot S bf (val e)) value)) "crossSumBestAtBelief value_differs"
+  return vd.render
+
 def handle (toks : List String) : String :=
   let r := match toks with
     | "vf" :: rest => P.run vf rest
     | "xd" :: rest => P.run xd rest
     | "pr" :: rest => P.run pr rest
     | "cs" :: rest => P.run cs rest
+    | "pj" :: rest => P.run pj rest
+    | "cb" :: rest => P.run cb rest
     | _ => none
   r.getD "bad-op"
 
